@@ -67,7 +67,10 @@ def load_findings(prop: str) -> list[dict]:
 
 def match_finding(findings: list[dict], clause: str, features: dict) -> dict | None:
     for f in findings:
-        if f["clause"] != clause:
+        if "clause_prefix" in f:
+            if not clause.startswith(f["clause_prefix"]):
+                continue
+        elif f["clause"] != clause:
             continue
         if all(features.get(k) == v for k, v in f.get("signature", {}).items()):
             return f
